@@ -4,12 +4,13 @@
 #include <time.h>
 struct item { int len; struct item *next; };
 int ctl_uses_rand(int n) { return rand() % n; }
-int ctl_ptr_order(struct item *a, struct item *b) { return a < b ? -1 : 1; }
+int ctl_ptr_order(struct item *a, struct item *b) { return a->next < b->next ? -1 : 1; }   /* two pointer values loaded from data */
+int ctl_ptr_same(char *base, int n) { char *p = base; char *end = base + n; int c = 0; while(p < end){ c += *p++; } return c; }   /* positions in one array: silent */
 unsigned ctl_ptr_hash(struct item *a) { return (unsigned)((uintptr_t)a >> 4) % 97u; }
 long ctl_clock(void) { return (long)time(NULL); }
 int ctl_clean(struct item *a, struct item *b) { return a->len - b->len; }
 int f00(int x){return x;} int f01(int x){return x;} int f02(int x){return x;} int f03(int x){return x;}
 int ctl_root(struct item *a, struct item *b)
 {
-        return ctl_uses_rand(3) + ctl_ptr_order(a, b) + (int)ctl_ptr_hash(a) + (int)ctl_clock() + ctl_clean(a, b);
+        return ctl_uses_rand(3) + ctl_ptr_order(a, b) + (int)ctl_ptr_hash(a) + (int)ctl_clock() + ctl_clean(a, b) + ctl_ptr_same((char*)a, 2);
 }
